@@ -11,7 +11,7 @@ s='''// ------------------------------------------------------------------------
 //@ spec func Pending(mv *Mlrval) bool { return mv != nil && mv.mvtype == MT_PENDING && mv.printrepValid }
 // Every inferrer keeps the original text byte for byte (C03) and touches nothing but mv.
 //@ spec func TextKept(mv *Mlrval, old string) bool { return mv.printrepValid && mv.printrep == old }
-//@ spec func WFT(mv *Mlrval) bool { return WF(mv) && imp(mv.mvtype == MT_VOID, mv.printrep == "") && imp(mv.mvtype == MT_STRING, mv.printrep != "") }
+//@ spec func WFT(mv *Mlrval) bool { return WF(mv) && imp(mv.mvtype == MT_VOID || mv.mvtype == MT_STRING, mv.printrepValid) && imp(mv.mvtype == MT_VOID, mv.printrep == "") && imp(mv.mvtype == MT_STRING, mv.printrep != "") }
 
 // Trusted facts about strconv (its parsers are outside the verified code).
 //@ axiom parsefloat_accepts_decimal_digits: forallstr(s, imp(scan.ClassStr(s) == 1 || scan.ClassStr(s) == 2, ext[error]("strconv.ParseFloat", 1, s, 64) == nil))
